@@ -43,8 +43,8 @@ CLAIMS = {
         note=TRUST + "float64 arithmetic is treated as real arithmetic (float comparisons at the subdivision borders are not decided). The reverse direction (convertBitToVerticalID: cell -> vertical indices via the point lookup and string surgery) is only assumed to terminate without panicking.",
         tech="deductive verification: WP VCs over go/ssa with float64 as ideal reals, zoom x loop-index case split, lemma over the pure-function contract, SMT (nonlinear real arithmetic on small queries)", ref="4 C17"),
     "C03": dict(
-        text="Contracts on the real per-axis kernels (HorizontalZoomMinMax, HorizontalZoom, VerticalZoom) prove, for every (input zoom, output zoom) pair in 0..35^2 and every index, the exact enumeration: zoom-in yields the 2^d (4^d) descendants in row-major order, zoom-out the floor ancestor (negative vertical indices included). Loop invariants are quantified, so list lengths are unbounded.",
-        note=TRUST + "The cross-product/Unique level of ChangeExtendedSpatialIdsZoom is covered by the contracts of Unique and of the kernels; its own set-level postcondition is listed in DESIGN.md as not yet discharged.",
+        text="Contracts on the real per-axis kernels (HorizontalZoomMinMax, HorizontalZoom, VerticalZoom) prove, for every (input zoom, output zoom) pair in 0..35^2 and every index, the exact enumeration: zoom-in yields the 2^d (4^d) descendants in row-major order, zoom-out the floor ancestor (negative vertical indices included). Loop invariants are quantified, so list lengths are unbounded. The list-level function is proved against the exact set-level specification: the result is duplicate-free and contains exactly the elements of the cross products of the per-axis results of the input IDs (both directions, for lists of any length), with the exact error behaviour.",
+        note=TRUST + "The set-level invariants are stated over opaque symbols for the joined ID and for the per-axis results, whose defining equations are available as triggered axioms (DESIGN 2.1).",
         tech="deductive verification: weakest-precondition VCs over go/ssa with contracts, exhaustive zoom case split, SMT (z3)", ref="4 C03"),
     "C05": dict(
         text="The extended-ID checks are proved exact: CheckExtendedSpatialIdsOverlap returns true iff the two voxels' ancestors at the coarser zoom coincide on both axes (for all valid IDs, all zooms symbolic), errors give false; the array form is proved equal to the disjunction of the pairwise relation with empty lists giving false (nested quantified invariants); symmetry and reflexivity are lemmas. The D obligations (constant index into map-ordered slices) are discharged from the zoom-change contract. The spatial-ID (radix-tree) forms are proved exact as well (array form = disjunction over all pairs of the ancestor-or-equal relation on (f+2^(z-1), x, y) for zooms 1..35 and altitudes within +-2^24 m; single-pair form; symmetry and reflexivity lemma) relative to an ASSUMED abstract contract of the third-party tree (ghost set of appended cells; IsOverlap = some stored cell is an ancestor, descendant or equal).",
@@ -71,8 +71,8 @@ CLAIMS = {
         note=TRUST + "math.Pow(2,k) and math.Mod on integers below 2^53 are modelled exactly (trusted, validated by setup).",
         tech="deductive verification: WP VCs over go/ssa, callee parse loop unrolled, shaped string parameter, SMT", ref="4 C07"),
     "C08": dict(
-        text="The 6-, 8- and 26-neighbour functions are proved to return exactly the shifts by the stencil offsets in the documented order for every canonical ID and zoom; distinctness, irreflexivity and symmetry for 3 <= 2^h are lemmas over those contracts. For the N-layer query the error cases, absence of panics and duplicate-freedom are proved.",
-        note=TRUST + "The exact membership characterisation of the N-layer query (four nested loops) is not discharged; see DESIGN.md.",
+        text="The 6-, 8- and 26-neighbour functions are proved to return exactly the shifts by the stencil offsets in the documented order for every canonical ID and zoom; distinctness, irreflexivity and symmetry for 3 <= 2^h are lemmas over those contracts. The N-layer query is proved exact: for every list and all layer counts up to 1024 the result is duplicate-free and consists of exactly the shifts of the input IDs by the offsets of the (2h+1)^2 (2v+1) box without its centre (both directions, invariants over the four nested loops), negative layer counts are errors.",
+        note=TRUST + "Layer counts are bounded by 1024 (the capacity computation of the result slice overflows / allocates without bound beyond that).",
         tech="deductive verification: WP VCs over go/ssa with complete loop unrolling, lemmas over contracts, SMT", ref="4 C08"),
     "C10": dict(
         text="The notation conversions are proved to be the stated component permutations for lists of any length (quantified loop invariants), arity errors are reported exactly, the round trip is the identity (lemma over the two contracts), and the extended-ID parser stores exactly the five parsed numbers.",
